@@ -493,13 +493,16 @@ func (e *Executor) LoadDependencyOutputs(
 		)
 		loadErr := e.registry.LoadOutputs(ctx, localDep, targetResult, progress)
 
-		if loadErr != nil || localDep.SkipsCache() {
+		// NOTE: A no-cache dependency that already ran in this build has its outputs in place
+		// (OutputsLoaded), so LoadOutputs is a no-op for it and it must not be executed a second time.
+		// One that has not run yet has no outputs in the cache, fails to load and is re-run below.
+		if loadErr != nil {
 			logger.Debugf(
 				"%s: failed to load output for dependency %s (re-rerunning): err=%v no-cache=%t",
 				target.Label,
 				localDep.Label,
-				err,
-				target.SkipsCache(),
+				loadErr,
+				localDep.SkipsCache(),
 			)
 			// In this case we need to also recursively re-load the dependencies of the dependency
 			if recursiveLoadErr := e.LoadDependencyOutputs(ctx, localDep, update); recursiveLoadErr != nil {
